@@ -506,6 +506,14 @@ func (ts *TestScript) setup() string {
 		)
 	}
 	ts.cd = env.Cd
+	// Make the initial variables (in particular $WORK) available to
+	// ts.expand, which is applied to the archive's file names below.
+	ts.envMap = make(map[string]string)
+	for _, kv := range env.Vars {
+		if i := strings.Index(kv, "="); i >= 0 {
+			ts.envMap[envvarname(kv[:i])] = kv[i+1:]
+		}
+	}
 	// Unpack archive.
 	a, err := txtar.ParseFile(ts.file)
 	ts.Check(err)
